@@ -135,7 +135,37 @@ func runC08(c *Ctx) {
 		}
 		return s
 	}
-	switch c.T.Weighted(1, 4, 3, 3, 2) {
+	switch c.T.Weighted(1, 4, 3, 3, 2, 1) {
+	case 5:
+		// one packet arrives in very many small pieces (33-120 of them)
+		sp = segPlan{"many-pieces", one()}
+		k := c.T.Choose(len(ends))
+		a := 0
+		if k > 0 {
+			a = ends[k-1]
+		}
+		b := ends[k]
+		np := 33 + c.T.Choose(88)
+		if b-a > np {
+			var s [][2]int
+			for i, sg := range sp.segs {
+				if i != k {
+					s = append(s, sg)
+					continue
+				}
+				prev := a
+				for j := 1; j < np; j++ {
+					ct := a + (b-a)*j/np
+					if ct > prev {
+						s = append(s, [2]int{prev, ct})
+						prev = ct
+					}
+				}
+				s = append(s, [2]int{prev, b})
+			}
+			sp.segs = s
+			sp.kind = fmt.Sprintf("packet %d (%d bytes) in %d pieces", k, b-a, np)
+		}
 	case 0:
 		sp = segPlan{"one-per-message", one()}
 	case 1:
